@@ -27,6 +27,9 @@ func (e *aEntry) item() ap.Item {
 		return ap.IRI(e.ID)
 	case "obj":
 		return &ap.Actor{ID: ap.ID(e.ID), Type: ap.PersonType}
+	case "obj2":
+		// another embedded copy of the same addressee: another type, more properties
+		return &ap.Object{ID: ap.ID(e.ID), Type: ap.ProfileType, Name: ap.DefaultNaturalLanguageValue("a copy")}
 	case "link":
 		return &ap.Link{ID: ap.ID(e.ID), Type: ap.LinkType, Href: ap.IRI(e.ID)}
 	case "other":
@@ -104,6 +107,8 @@ func describeEntry(it ap.Item) interface{} {
 		return []string{"obj", string(x.ID)}
 	case *ap.Link:
 		return []string{"link", string(x.ID)}
+	case *ap.Object:
+		return []string{"obj2", string(x.ID)}
 	case ap.ItemCollection:
 		return []string{"other", ""}
 	}
@@ -341,6 +346,7 @@ var c10Pool = []*aEntry{
 	{"iri", "https://example.com/a"}, {"iri", "http://example.com/a"}, {"iri", "https://EXAMPLE.com/a/"}, {"obj", "https://example.com/a"},
 	{"iri", "https://example.com/b"}, {"obj", "https://example.com/b"}, {"iri", "https://www.w3.org/ns/activitystreams#Public"},
 	{"iri", "https://example.com/c"}, {"link", "https://example.com/l"}, nil, {"other", ""},
+	{"obj2", "https://example.com/a"}, {"obj", "http://example.com/a"}, {"obj2", "http://EXAMPLE.com/b/"},
 	{"obj", ""}, // an embedded actor without an id: names nobody, is left alone (also when a list holds two of them)
 }
 
@@ -435,6 +441,15 @@ func init() {
 				typ = []string{"Activity", "IntransitiveActivity", "Question"}[c.R.Intn(3)]
 			}
 			c10Case(c, c10RandValue(c.R, typ, c.N(4, 6)))
+			// lists longer than a machine word has bits, with a duplicate of an early mention far into the list
+			if typ != "ItemCollection" && c.R.Chance(8) {
+				var long []*aEntry
+				for k := 0; k < 64+c.R.Intn(12); k++ {
+					long = append(long, &aEntry{"iri", fmt.Sprintf("https://example.com/follower/%d", k)})
+				}
+				long = append(long, &aEntry{"iri", "http://example.com/follower/3"}, &aEntry{"obj", "https://example.com/b"}, &aEntry{"iri", "https://EXAMPLE.com/b/"})
+				c10Case(c, aValue{Type: typ, To: []*aEntry{{"obj", "https://example.com/b"}}, CC: long, Bto: []*aEntry{}, BCC: []*aEntry{}, Audience: []*aEntry{}})
+			}
 			// one addressee spelled with letters of another script, in two letter cases and with a trailing slash
 			if typ != "ItemCollection" {
 				greek := []*aEntry{{"iri", "https://example.gr/users/Νίκος"}, {"iri", "http://EXAMPLE.GR/USERS/ΝΊΚΟΣ/"}, {"obj", "https://example.gr/users/νίκος"},
